@@ -833,7 +833,44 @@ func runReal(c *Case) (g Got, then *Got, harness error) {
 	case g2.Nil != g.Nil || !reflect.DeepEqual(g2.Acts, g.Acts):
 		g.Second = fmt.Sprintf("%d actions vs %d, or different ones", len(g2.Acts), len(g.Acts))
 	}
+	rolling := func() {
+		// the datasource is the caller's: after every history in it was replaced by another one of
+		// the same length (a rolling window: every version number one higher), the same call
+		// gives what it gives on a datasource that was built with those histories
+		if hd, ok := ds.(*osm.HistoryDatasource); ok && g.Panic == "" {
+			shifted := *c
+			shifted.Hist = nil
+			for _, h := range c.Hist {
+				h2 := h
+				h2.Versions = make([]int, len(h.Versions))
+				for i, v := range h.Versions {
+					h2.Versions[i] = v + 1
+				}
+				shifted.Hist = append(shifted.Hist, h2)
+			}
+			d1, e1 := buildDS(&shifted)
+			d2, e2 := buildDS(&shifted)
+			if e1 == nil && e2 == nil {
+				src := d1.(*osm.HistoryDatasource)
+				for id, h := range src.Nodes {
+					hd.Nodes[id] = h
+				}
+				for id, h := range src.Ways {
+					hd.Ways[id] = h
+				}
+				for id, h := range src.Relations {
+					hd.Relations[id] = h
+				}
+				ga, _ := invoke(change, hd, opts)
+				gb, _ := invoke(change, d2, opts)
+				if ga.Panic != gb.Panic || (ga.Err == nil) != (gb.Err == nil) || (ga.Err != nil && ga.Err.Error() != gb.Err.Error()) || ga.Nil != gb.Nil || !reflect.DeepEqual(ga.Acts, gb.Acts) {
+					g.Second = fmt.Sprintf("after the histories in the datasource were replaced by others of the same length: %d actions err=%v, on a datasource built with those histories: %d actions err=%v", len(ga.Acts), ga.Err, len(gb.Acts), gb.Err)
+				}
+			}
+		}
+	}
 	if c.Then == nil {
+		rolling()
 		return g, nil, nil
 	}
 	// a different change (fresh elements: nothing of it is shared with the first
@@ -848,6 +885,7 @@ func runReal(c *Case) (g Got, then *Got, harness error) {
 			g.Retained = fmt.Sprintf("was %v, is %v after the next call", g.Acts, now)
 		}
 	}
+	rolling()
 	return g, &t, nil
 }
 
